@@ -191,6 +191,7 @@ class StringDataEncoding(DataEncoding):
             raise ValueError(f"Got encoding={encoding} (uppercased). "
                              f"Encoding must be one of {self._supported_encodings}.")
         self.encoding = encoding
+        self.byte_order = byte_order
         if encoding not in ['US-ASCII', 'ISO-8859-1', 'Windows-1252', 'UTF-8']:  # for these, byte order doesn't matter
             if byte_order is None:
                 if "LE" in encoding:
@@ -199,11 +200,9 @@ class StringDataEncoding(DataEncoding):
                     self.byte_order = "mostSignificantByteFirst"
                 else:
                     raise ValueError("Byte order must be specified for multi-byte character encodings.")
-        else:
-            self.byte_order = byte_order
-            if self.byte_order and self.byte_order not in ("leastSignificantByteFirst", "mostSignificantByteFirst"):
-                raise ValueError("If specified, byte order must be one of `leastSignificantByteFirst`, "
-                                 "`mostSignificantByteFirst`.")
+        if self.byte_order and self.byte_order not in ("leastSignificantByteFirst", "mostSignificantByteFirst"):
+            raise ValueError("If specified, byte order must be one of `leastSignificantByteFirst`, "
+                             "`mostSignificantByteFirst`.")
 
         if termination_character and leading_length_size:
             raise ValueError("Got both a termination character and a leading size for a string encoding.")
@@ -458,6 +457,9 @@ class StringDataEncoding(DataEncoding):
         : ElementTree.Element
         """
         element = elmaker.StringDataEncoding(encoding=self.encoding)
+        if self.byte_order and not (self.encoding.endswith("BE") or self.encoding.endswith("LE")):
+            # The reader needs the byte order for multi-byte encodings that do not carry it in their name
+            element.attrib["byteOrder"] = self.byte_order
 
         if self.fixed_length:
             size_element = elmaker.SizeInBits(
@@ -999,7 +1001,7 @@ class BinaryDataEncoding(DataEncoding):
         -------
         : ElementTree.Element
         """
-        if self.fixed_size_in_bits:
+        if self.fixed_size_in_bits is not None:
             return elmaker.BinaryDataEncoding(
                 elmaker.SizeInBits(
                     elmaker.FixedValue(str(self.fixed_size_in_bits))
